@@ -287,9 +287,8 @@ Qed.
 (* ------------------------------------------------------------------------------------------------ *)
 (* the round trip *)
 
-Theorem json_roundtrip_equiv : forall j, good j = true -> exists j', json_roundtrip j = Some j' /\ jequiv j' j.
+Lemma to_json_of_json_equiv : forall j, good j = true -> exists j', to_json (of_json j) = Some j' /\ jequiv j' j.
 Proof.
-  unfold json_roundtrip.
   induction j as [| b | m e | s | l IH | kv IH] using json_ind'; cbn [good]; intros G.
   - exists JNull. split; [reflexivity|constructor].
   - exists (JBool b). split; [reflexivity|constructor].
@@ -366,25 +365,25 @@ Qed.
 (* a number whose exponent is outside -1000..1000, a string with half a surrogate pair: error values;
    at top level json() fails, inside an array null is written, inside an object the member is omitted *)
 Lemma json_roundtrip_bad_number : forall m e, exp_ok e = false ->
-  json_roundtrip (JNum m e) = None
-  /\ json_roundtrip (JArr [JNum m e]) = Some (JArr [JNull])
-  /\ json_roundtrip (JObj [([97%N], JNum m e)]) = Some (JObj []).
+  json_roundtrip 1 (JNum m e) = None
+  /\ json_roundtrip 1 (JArr [JNum m e]) = Some (JArr [JNull])
+  /\ json_roundtrip 1 (JObj [([97%N], JNum m e)]) = Some (JObj []).
 Proof.
-  intros m e H. unfold json_roundtrip. cbn [of_json map fst snd build_props str_ok existsb negb is_surrogate].
+  intros m e H. unfold json_roundtrip, to_json_checked. cbn [of_json map fst snd build_props str_ok existsb negb is_surrogate].
   rewrite H. repeat split.
 Qed.
 
 Lemma json_roundtrip_bad_string : forall s, str_ok s = false ->
-  json_roundtrip (JStr s) = None
-  /\ json_roundtrip (JArr [JStr s]) = Some (JArr [JNull])
-  /\ json_roundtrip (JObj [([97%N], JStr s)]) = Some (JObj []).
+  json_roundtrip 1 (JStr s) = None
+  /\ json_roundtrip 1 (JArr [JStr s]) = Some (JArr [JNull])
+  /\ json_roundtrip 1 (JObj [([97%N], JStr s)]) = Some (JObj []).
 Proof.
-  intros s H. unfold json_roundtrip. cbn [of_json map fst snd build_props]. rewrite H. repeat split.
+  intros s H. unfold json_roundtrip, to_json_checked. cbn [of_json map fst snd build_props]. rewrite H. repeat split.
 Qed.
 
 (* a key with half a surrogate pair ends the object: the members after it are lost as well *)
 Lemma json_roundtrip_bad_key :
-  json_roundtrip (JObj [([97%N], JNum 1 0); ([56320%N], JNum 2 0); ([98%N], JNum 3 0)])
+  json_roundtrip 1 (JObj [([97%N], JNum 1 0); ([56320%N], JNum 2 0); ([98%N], JNum 3 0)])
   = Some (JObj [([97%N], JNum 1 0)]).
 Proof. vm_compute. reflexivity. Qed.
 
@@ -393,11 +392,34 @@ Proof. reflexivity. Qed.
 
 (* witnesses against the statement for ALL documents *)
 Lemma json_roundtrip_witnesses :
-  (json_roundtrip (JArr [JNum 1 1001]) = Some (JArr [JNull]) /\ ~ jequiv (JArr [JNull]) (JArr [JNum 1 1001]))
-  /\ (json_roundtrip (JObj [([107%N], JStr [55296%N; 120%N]); ([98%N], JNum 1 0)]) = Some (JObj [([98%N], JNum 1 0)])
+  (json_roundtrip 1 (JArr [JNum 1 1001]) = Some (JArr [JNull]) /\ ~ jequiv (JArr [JNull]) (JArr [JNum 1 1001]))
+  /\ (json_roundtrip 1 (JObj [([107%N], JStr [55296%N; 120%N]); ([98%N], JNum 1 0)]) = Some (JObj [([98%N], JNum 1 0)])
       /\ ~ jequiv (JObj [([98%N], JNum 1 0)]) (JObj [([107%N], JStr [55296%N; 120%N]); ([98%N], JNum 1 0)])).
 Proof.
   split; split; try (vm_compute; reflexivity).
   - intros H. inversion H as [| | | |l l' Hl|]; subst. inversion Hl as [|x y r r' Hxy Hr]; subst. inversion Hxy.
   - intros H. inversion H as [| | | | |kv kv' Hk]; subst. specialize (Hk [107%N]). cbn in Hk. inversion Hk.
 Qed.
+
+(* ------------------------------------------------------------------------------------------------ *)
+(* with the render size limit of ToXJSON *)
+
+Theorem json_roundtrip_equiv : forall dc j, good j = true -> render_ok dc true (of_json j) = true ->
+  exists j', json_roundtrip dc j = Some j' /\ jequiv j' j.
+Proof.
+  intros dc j G R. unfold json_roundtrip, to_json_checked. rewrite R. apply to_json_of_json_equiv. exact G.
+Qed.
+
+(* the error branch: a value above the limit is not written at all *)
+Lemma json_roundtrip_over_size : forall dc j, render_ok dc true (of_json j) = false -> json_roundtrip dc j = None.
+Proof. intros dc j R. unfold json_roundtrip, to_json_checked. rewrite R. reflexivity. Qed.
+
+(* where the limit lies for nesting alone.  With the charge of 1 per level (dc = 1) n arrays inside one another cost
+   n(n+1)/2: 1413 levels are written back, 1414 are not.  Without it (dc = 0) they cost n. *)
+Fixpoint nest (n : nat) : json := match n with O => JArr [] | S k => JArr [nest k] end.
+
+Example nest_limit :
+  good (nest 1412) = true /\ render_ok 1 true (of_json (nest 1412)) = true /\ json_roundtrip 1 (nest 1412) = Some (nest 1412)
+  /\ good (nest 1413) = true /\ render_ok 1 true (of_json (nest 1413)) = false /\ json_roundtrip 1 (nest 1413) = None
+  /\ json_roundtrip 0 (nest 1413) = Some (nest 1413).
+Proof. vm_compute. repeat split. Qed.
